@@ -232,3 +232,27 @@ def rust_order(d, v):
     if k == "bound": return ("var", v[1], rust_order(d[1], v[2]) if v[1] < 2 else ())
     if k == "tagged": return rust_order(d[2], v)
     return v
+
+
+def canon_show(d, v):
+    """Value text as the harness prints a *decoded* value: unordered collections sorted by element text (sets deduplicated),
+    maps sorted by key text."""
+    k = d[0]
+    if k == "opt": return "null" if v is None else "some(%s)" % canon_show(d[1], v[1])
+    if k == "seq":
+        ts = [canon_show(d[1], x) for x in v]
+        if d[2] in ("set", "hset"): ts = sorted(set(ts))
+        elif d[2] == "multiset": ts = sorted(ts)
+        return "[" + ",".join(ts) + "]"
+    if k == "arr": return "[" + ",".join(canon_show(d[2], x) for x in v) + "]"
+    if k == "map":
+        ps = sorted((canon_show(d[1], a), canon_show(d[2], b)) for a, b in v)
+        return "[" + ",".join(a + "," + b for a, b in ps) + "]"
+    if k in ("tup", "fields"): return "[" + ",".join(canon_show(x, y) for x, y in zip(d[1], v)) + "]"
+    if k == "enum": return "v%d(%s)" % (v[1], canon_show(d[1][v[1]], v[2]))
+    if k == "bound": return "v%d(%s)" % (v[1], canon_show(d[1], v[2]) if v[1] < 2 else "()")
+    if k == "tagged": return canon_show(d[2], v)
+    return show(d, v)
+
+def unordered(key):
+    return any(x in key for x in ("set(", "heap(", "map("))
